@@ -205,13 +205,17 @@ var props = map[string]*propCfg{
 	},
 	"C14": {
 		ID: "C14", Level: "model_checking", Exhaustive: true,
-		Rule:        "TLC explores every interleaving of the main goroutine (one step per row) with the start / finish steps of every ASYNC, SPINASYNC and SPIN call for four select lists (col+async on 3 rows; async+spinasync+sync, once+async+spin and async+col+async on 2 rows), checking at Return that every ASYNC / SPINASYNC call was invoked exactly once and completed, that values sit in their columns, that SPIN / SPINASYNC add no column and that ONCE ran once - and termination under fairness; a deviation configuration (wait group incremented inside the goroutine) must violate AllCompleted. Every terminal behaviour is exported as a schedule and forced onto the real engine with gates inside the harness's own functions (the main goroutine is gated by an unqualified mark(a) placed first in the select list): Exec returning while a gated ASYNC / SPINASYNC call is still held is a violation, as are wrong invocation counts, rows or columns. Leg T: free-running goroutines with zero / skewed / random latencies on 2-6 rows, events recorded with a sequence number under one lock and validated against AsyncTrace (a 'ret' event is only enabled once the wait group has drained). Immediate functions under ASYNC / SPIN / SPINASYNC must be rejected. Non-trivial: every schedule; distinct = distinct schedules.",
+		Rule:        "TLC explores every interleaving of the main goroutine (one step per row) with the start / finish steps of every ASYNC, SPINASYNC and SPIN call for seven configurations (col+async on 3 rows; async+spinasync+sync, once+async+spin, async+col+async, a NULL-returning ONCE + async on 2 rows; spinasync+col and col+async inside a nested query whose wait group is chained to the outer one - replayed as a derived table and as a CTE body), checking at Return that every ASYNC / SPINASYNC call was invoked exactly once and completed, that values sit in their columns, that SPIN / SPINASYNC add no column and that ONCE ran once - and termination under fairness; two deviation configurations (wait group incremented inside the goroutine; outer query not chained to the nested wait group) must violate AllCompleted. Every terminal behaviour is exported as a schedule and forced onto the real engine with gates inside the harness's own functions (the main goroutine is gated by an unqualified mark(a) placed first in the select list): Exec returning while a gated ASYNC / SPINASYNC call is still held is a violation, as are wrong invocation counts, rows or columns. Leg T: free-running goroutines with zero / skewed / random latencies on 2-6 rows, events recorded with a sequence number under one lock and validated against AsyncTrace (a 'ret' event is only enabled once the wait group has drained). Immediate functions under ASYNC / SPIN / SPINASYNC must be rejected. Non-trivial: every schedule; distinct = distinct schedules.",
 		Assumptions: append([]string{"gates synchronise the goroutines, so forced schedules expose logical outcomes only; memory races are the race detector's job (C13)"}, baseAssumptions...),
 		CaseTimeout: 60 * time.Second,
 		Quick: []legCfg{
 			{Kind: "mc", Name: "dev", Module: "MC_C14", Cfg: "C14_dev.cfg", Timeout: 5 * time.Minute, TLCWorkers: 1, NoExport: true, Expect: "AllCompleted"},
 			{Kind: "mc", Name: "a", Module: "MC_C14", Cfg: "C14_a.cfg", Timeout: 10 * time.Minute, TLCWorkers: 4, Workers: 8},
 			{Kind: "mc", Name: "d", Module: "MC_C14", Cfg: "C14_d.cfg", Timeout: 10 * time.Minute, TLCWorkers: 4, Workers: 8},
+			{Kind: "mc", Name: "e", Module: "MC_C14", Cfg: "C14_e.cfg", Timeout: 10 * time.Minute, TLCWorkers: 4, Workers: 4},
+			{Kind: "mc", Name: "f", Module: "MC_C14", Cfg: "C14_f.cfg", Timeout: 10 * time.Minute, TLCWorkers: 4, Workers: 4},
+			{Kind: "mc", Name: "g", Module: "MC_C14", Cfg: "C14_g.cfg", Timeout: 10 * time.Minute, TLCWorkers: 4, Workers: 4},
+			{Kind: "mc", Name: "dev-nochain", Module: "MC_C14", Cfg: "C14_dev_nochain.cfg", Timeout: 5 * time.Minute, TLCWorkers: 1, NoExport: true, Expect: "AllCompleted"},
 			{Kind: "exec", Name: "immediate", Mode: "immediate", Timeout: 2 * time.Minute},
 			{Kind: "trace", Name: "latency", Module: "AsyncTrace", TraceN: 150, TraceFiles: 5, Timeout: 10 * time.Minute, CallEv: "begin"},
 		},
@@ -221,6 +225,10 @@ var props = map[string]*propCfg{
 			{Kind: "mc", Name: "b", Module: "MC_C14", Cfg: "C14_b.cfg", Timeout: 10 * time.Minute, TLCWorkers: 4, Workers: 8},
 			{Kind: "mc", Name: "c", Module: "MC_C14", Cfg: "C14_c.cfg", Timeout: 10 * time.Minute, TLCWorkers: 4, Workers: 8},
 			{Kind: "mc", Name: "d", Module: "MC_C14", Cfg: "C14_d.cfg", Timeout: 10 * time.Minute, TLCWorkers: 4, Workers: 8},
+			{Kind: "mc", Name: "e", Module: "MC_C14", Cfg: "C14_e.cfg", Timeout: 10 * time.Minute, TLCWorkers: 4, Workers: 4},
+			{Kind: "mc", Name: "f", Module: "MC_C14", Cfg: "C14_f.cfg", Timeout: 10 * time.Minute, TLCWorkers: 4, Workers: 4},
+			{Kind: "mc", Name: "g", Module: "MC_C14", Cfg: "C14_g.cfg", Timeout: 10 * time.Minute, TLCWorkers: 4, Workers: 4},
+			{Kind: "mc", Name: "dev-nochain", Module: "MC_C14", Cfg: "C14_dev_nochain.cfg", Timeout: 5 * time.Minute, TLCWorkers: 1, NoExport: true, Expect: "AllCompleted"},
 			{Kind: "exec", Name: "immediate", Mode: "immediate", Timeout: 2 * time.Minute},
 			{Kind: "trace", Name: "latency", Module: "AsyncTrace", TraceN: 600, TraceFiles: 15, Timeout: 20 * time.Minute, CallEv: "begin"},
 		},
